@@ -83,3 +83,112 @@ def new_payloads(before, after):
         if p not in before and os.path.basename(d) == 'files' and (os.path.dirname(d) + '/info') in after:
             out.append((os.path.dirname(d), os.path.basename(p)))
     return sorted(out)
+
+
+# ---------------------------------------------------------------------------------------------
+# classification of what a trash-put run did to one denoted entry (used by C01, C05, C16, C17)
+SKELETON_NAMES = ('files', 'info')
+
+
+def trashinfo_location(td, raw):
+    """absolute location(s) a .trashinfo in trash dir td may denote by the spec: absolute Path as
+    is; relative Path joined to an ancestor directory of td (the volume top dir)"""
+    p = R1.parse(raw)
+    if p['path'] is None:
+        return None, p
+    loc = p['path'].decode('utf-8', 'surrogateescape')
+    return loc, p
+
+
+def location_matches(td, loc, E):
+    if loc.startswith('/'):
+        return loc == E
+    if not (E == loc or E.endswith('/' + loc)):
+        return False
+    top = E[:-len(loc) - 1] or '/'
+    return td == top or td.startswith(top.rstrip('/') + '/')
+
+
+def classify_put(before, after, E, orig=None, orig_path=None):
+    """-> dict(state=TRASHED|UNTOUCHED|HALF, why=[...], pair=(td, name)|None, new_infos, new_payloads)
+    before/after: whole-world snapshots; E: canonical entry path (or None = argument names nothing).
+    orig/orig_path: snapshot+path holding the original entry (default before/E)."""
+    orig = orig if orig is not None else before
+    orig_path = orig_path or E
+    ni, npay = new_infos(before, after), new_payloads(before, after)
+    why = []
+    res = {'new_infos': ni, 'new_payloads': npay, 'pair': None}
+    if E is None:
+        res['state'] = 'UNTOUCHED' if not ni and not npay else 'HALF'
+        if ni or npay:
+            why.append('trash gained %r %r for an argument that names nothing' % (ni, npay))
+        res['why'] = why
+        return res
+    here_before = world.under(before, E)
+    here_after = world.under(after, E)
+    # judged modulo newly created, empty trash-skeleton directories inside E (and dir mtimes)
+    def strip_skel(sub_b, sub_a):
+        out = dict(sub_a)
+        for rel in sorted(sub_a, key=len, reverse=True):
+            if rel not in sub_b and sub_a[rel][0] == 'd' and not any(
+                    k != rel and k.startswith(rel + '/') and k in out for k in sub_a):
+                out.pop(rel)
+        return out
+    here_after_s = strip_skel(here_before, here_after)
+    untouched = (set(here_before) == set(here_after_s) and all(
+        world.norm(here_before[k], dir_mtime=False, info_mtime=True) ==
+        world.norm(here_after_s[k], dir_mtime=False, info_mtime=True) for k in here_before))
+    gone = not here_after
+    if untouched and not ni and not npay:
+        res['state'] = 'UNTOUCHED'
+    elif gone and len(ni) == 1 and len(npay) == 1 and ni[0] == npay[0]:
+        td, nm = ni[0]
+        raw = info_of(after, td, nm)
+        ok = True
+        if not world.same_entry(orig, orig_path, after, '%s/files/%s' % (td, nm)):
+            ok = False
+            why.append('payload %s/files/%s differs from the original entry' % (td, nm))
+        loc, p = trashinfo_location(td, raw or b'')
+        if raw is None or loc is None or not location_matches(td, loc, E):
+            ok = False
+            why.append('info does not name the entry: %r' % (raw,))
+        elif not p['date_valid'] or not p['header']:
+            ok = False
+            why.append('info malformed: %r' % (raw,))
+        res['state'] = 'TRASHED' if ok else 'HALF'
+        res['pair'] = (td, nm)
+    else:
+        res['state'] = 'HALF'
+        if untouched:
+            why.append('entry untouched but trash gained infos=%r payloads=%r' % (ni, npay))
+        elif gone:
+            why.append('entry gone; new infos=%r payloads=%r' % (ni, npay))
+        else:
+            why.append('entry partly changed: %r; new infos=%r payloads=%r' % (
+                sorted(set(here_before) ^ set(here_after_s))[:6], ni, npay))
+    res['why'] = why
+    return res
+
+
+def frame_changes(before, after, E=None, allow_skeleton=True):
+    """paths changed outside E and outside new pairs: [(path, what)].  New empty directories and
+    directories containing only new directories (trash skeleton, created on demand) are allowed."""
+    out = []
+    added_dirs = set()
+    for p in sorted(set(before) | set(after)):
+        if E and (p == E or p.startswith(E.rstrip('/') + '/')):
+            continue
+        a, b = before.get(p), after.get(p)
+        if a is None:
+            d = os.path.dirname(p)
+            if b[0] == 'd' and allow_skeleton:
+                added_dirs.add(p)
+                continue
+            if os.path.basename(d) in ('files', 'info') or '/files/' in p:
+                continue          # accounted for by new_infos/new_payloads
+            out.append((p, 'added'))
+        elif b is None:
+            out.append((p, 'removed'))
+        elif world.norm(a, p) != world.norm(b, p):
+            out.append((p, 'modified'))
+    return out
